@@ -7,6 +7,9 @@ From V Require Import Model.Txn Model.TxnCheck Proofs.TxnProofs Proofs.TxnFiles.
 Import ListNotations.
 Open Scope N_scope.
 
+(* Pa d: if slot d has an artifact it has a datastore record (part of the invariant DI of TxnProofsLo2.v; true in every state
+   reached by committed operations) -- the guard of the file-side theorems for transfer_from and import_ *)
+Definition Pa (d : N) : precond := fun c f _ => fget d f <> None -> mem d (recs c) = true.
 Definition Pt (d : N) : precond := fun c _ _ => mem d (ds c) = true -> mem d (recs c) = true.
 Definition Pr (d : N) : precond := fun c f _ => mem d (recs c) = true \/ (fget d f = None /\ mem d (ds c) = true).
 
@@ -55,13 +58,13 @@ Proof.
 Qed.
 
 Lemma FA_transfer_body : forall d,
-  FA (Pt d) (ev (guard (fun s => negb (has_ds d s) || mem d (xf (cur s)))) ;;
+  FA (Pa d) (ev (guard (fun s => negb (has_ds d s) || mem d (xf (cur s)))) ;;
              upd (on_cur (fun x => up_xf (add d) (up_ds (add d) x))) ;; with_ds shipped (xfer_ds d)).
 Proof.
   intros d s s' r H. unfold bind at 1 in H. unfold ev in H. destruct (tick s) as [s1 b1] eqn:T1. tk T1.
   assert (M1 : Mono s (set_fuse x s)) by (apply Mono_set_fuse; intro F; apply TN; exact F).
   assert (G0 : Mono s (set_fuse x s) /\
-               forall l rr, ptr (set_fuse x s) = l :: rr -> no_orphan s -> holds (Pt d) s -> cfault (set_fuse x s) = false ->
+               forall l rr, ptr (set_fuse x s) = l :: rr -> no_orphan s -> holds (Pa d) s -> cfault (set_fuse x s) = false ->
                no_orphan (set_fuse x s) /\ exists l', ptr (set_fuse x s) = (l' ++ l) :: rr /\ restores l' (set_fuse x s) s).
   { split; [exact M1|]. intros l rr Pt0 O _ _. split; [exact O|].
     exists []. split; [exact Pt0 | apply restores_nil; apply feq_refl]. }
@@ -77,55 +80,34 @@ Proof.
   assert (O2 : no_orphan (on_cur (fun x0 => up_xf (add d) (up_ds (add d) x0)) (set_fuse x s))).
   { intros y Y. unfold on_cur; simpl. apply mem_add_mono. apply O. exact Y. }
   assert (Pz2 : holds (Pr d) (on_cur (fun x0 => up_xf (add d) (up_ds (add d) x0)) (set_fuse x s))).
-  { unfold holds, Pr, on_cur; simpl. destruct (mem d (ds (cur s))) eqn:Md.
-    - left. apply Pz. exact Md.
-    - right. split; [|apply mem_add_same].
-      destruct (fget d (fs s)) eqn:Fd; [|reflexivity]. exfalso.
-      assert (X : mem d (ds (cur s)) = true) by (apply O; rewrite Fd; discriminate). congruence. }
+  { unfold holds, Pr, on_cur; simpl. destruct (mem d (recs (cur s))) eqn:Rd; [left; reflexivity|].
+    right. split; [|apply mem_add_same].
+    destruct (fget d (fs s)) eqn:Fd; [|reflexivity]. exfalso.
+    assert (X : mem d (recs (cur s)) = true) by (apply Pz; rewrite Fd; discriminate). congruence. }
   exact (K l rr Pt0 O2 Pz2 CF).
 Qed.
 
-(* the cache load in front of the body touches neither registry tables nor files: the precondition survives it *)
-Lemma FA_after_load_dc : forall P m, FA P m -> FA P (load_dc ;; m).
+Lemma FAc_transfer_op : forall d, FAc (Pa d) (exec_op shipped (Transfer d)).
 Proof.
-  intros P m Hm s s' r H. unfold bind in H. destruct (load_dc s) as [s1 r1] eqn:E.
-  assert (K : Mono s s1 /\ cur s1 = cur s /\ fs s1 = fs s /\ ext s1 = ext s /\ ptr s1 = ptr s /\
-              (r1 <> Normal -> cfault s1 = cfault s)).
-  { unfold load_dc in E. destruct (dcache s).
-    - inversion E; subst. split; [apply Mono_refl | repeat split; auto].
-    - unfold ev, upd in E. destruct (tick s) as [s2 b] eqn:T. tk T.
-      assert (M0 : Mono s (set_fuse x s)) by (apply Mono_set_fuse; intro F; apply TN; auto).
-      destruct b; inversion E; subst; simpl.
-      + split; [exact M0 | repeat split; auto].
-      + split; [apply (Mono_trans _ (set_fuse x s)); [exact M0 | apply Mono_of; reflexivity] | repeat split; auto]. }
-  destruct K as (M1 & C1 & F1 & X1 & P1 & _).
-  destruct r1.
-  - destruct (Hm _ _ _ H) as (M2 & K2). split; [eapply Mono_trans; eauto|].
-    intros l rest Pt0 O Pz CF.
-    assert (O1 : no_orphan s1) by (apply (no_orphan_of s); auto).
-    assert (Pz1 : holds P s1) by (unfold holds in *; rewrite C1, F1, X1; exact Pz).
-    destruct (K2 l rest (eq_trans P1 Pt0) O1 Pz1 CF) as (O2 & l' & Q1 & Q2).
-    split; [exact O2|]. exists l'. split; [exact Q1|].
-    intros t Ft Et. destruct (Q2 t Ft Et) as (A & B). rewrite <- F1, <- X1. auto.
-  - inversion H; subst. split; [exact M1|]. intros l rest Pt0 O _ _.
-    split; [apply (no_orphan_of s); auto|]. exists []. split; [rewrite P1; exact Pt0|].
-    apply restores_nil; [rewrite F1 | rewrite X1]; apply feq_refl.
-Qed.
-
-Lemma FAc_transfer_op : forall d, FAc (Pt d) (exec_op shipped (Transfer d)).
-Proof.
-  intro d; simpl. rewrite do_transfer_unfold. apply FAc_butler_txn; [apply FA_after_load_dc, FA_transfer_body|].
+  intro d; simpl. rewrite do_transfer_unfold. apply FAc_butler_txn; [apply FA_after_silent; [apply Silent_load_dc | apply FA_transfer_body]|].
   repeat first [ apply WB_bind | apply WB_ev | apply WB_guard | apply WB_with_ds | apply WB_xfer_ds | apply WB_load_dc | (apply WB_upd; keeps) ].
 Qed.
 
 Lemma transfer_files_atomic_p : forall d s s' h,
-  no_orphan s -> (mem d (ds (cur s)) = true -> mem d (recs (cur s)) = true) ->
+  no_orphan s -> (fget d (fs s) <> None -> mem d (recs (cur s)) = true) ->
   exec shipped (POp (Transfer d)) s = (s', Raised h) -> cfault s' = false ->
   feq (fs s') (fs s) /\ feq (ext s') (ext s) /\ ptr s' = ptr s /\ no_orphan s'.
 Proof.
   intros d s s' h O P H CF. simpl in H. destruct (FAc_transfer_op d _ _ _ H) as (_ & K).
   destruct (K O P CF) as (O' & Q1 & Q2 & Q3). auto.
 Qed.
+
+(* the guard of the first version of this theorem (a registered slot has a record) is a special case *)
+Lemma transfer_files_atomic_old_p : forall d s s' h,
+  no_orphan s -> (mem d (ds (cur s)) = true -> mem d (recs (cur s)) = true) ->
+  exec shipped (POp (Transfer d)) s = (s', Raised h) -> cfault s' = false ->
+  feq (fs s') (fs s) /\ feq (ext s') (ext s) /\ ptr s' = ptr s /\ no_orphan s'.
+Proof. intros d s s' h O P. apply transfer_files_atomic_p; [exact O|]. intro X. apply P, O, X. Qed.
 
 (* the guard is necessary: registered by an earlier transfer, artifact present, record missing -- a failing re-transfer
    overwrites the artifact and its rollback deletes it *)
@@ -143,18 +125,43 @@ Qed.
 (* import_: atomic on the file side when the imported slot has no artifact yet; REFUTED otherwise (re-import of a
    dataset that is already stored: FileDatastore.ingest overwrites the artifact, INSERT dataset_location fails, the
    rollback deletes the artifact) *)
-Definition Pi (d : N) : precond := fun _ f _ => fget d f = None.
+Definition Pad (d : N) : precond := fun c f e => Pa d c f e /\ mem d (ds c) = true.
+
+(* 2da36a1: the pre-check refuses a dataset that is located or recorded; under Pa what passes it has no artifact *)
+Lemma FA_refuse_then : forall d m, FA (Pd d) m -> FA (Pad d) (refuse_held shipped d ;; m).
+Proof.
+  intros d m Hm s s' r H. unfold refuse_held in H; simpl in H. unfold bind, ev, guard in H.
+  destruct (tick s) as [s1 b1] eqn:T1. tk T1.
+  assert (M1 : Mono s (set_fuse x s)) by (apply Mono_set_fuse; intro F; apply TN; exact F).
+  assert (G0 : Mono s (set_fuse x s) /\
+               forall l rr, ptr (set_fuse x s) = l :: rr -> no_orphan s -> holds (Pad d) s -> cfault (set_fuse x s) = false ->
+               no_orphan (set_fuse x s) /\ exists l', ptr (set_fuse x s) = (l' ++ l) :: rr /\ restores l' (set_fuse x s) s).
+  { split; [exact M1|]. intros l rr Pt0 O _ _. split; [exact O|].
+    exists []. split; [exact Pt0 | apply restores_nil; apply feq_refl]. }
+  destruct b1; [inversion H; subst; exact G0|].
+  destruct (held d (set_fuse x s)) eqn:HE; simpl in H; [inversion H; subst; exact G0|].
+  destruct (Hm _ _ _ H) as (M & K). split; [eapply Mono_trans; [exact M1 | exact M]|].
+  intros l rr Pt0 O (Pz & Md) CF.
+  assert (Pz2 : holds (Pd d) (set_fuse x s)).
+  { unfold holds, Pd; simpl. split; [|exact Md]. unfold held in HE; simpl in HE. apply orb_false_iff in HE. destruct HE as (_ & R).
+    destruct (fget d (fs s)) eqn:Fd; [|reflexivity]. exfalso.
+    assert (X : mem d (recs (cur s)) = true) by (apply Pz; rewrite Fd; discriminate). congruence. }
+  exact (K l rr Pt0 O Pz2 CF).
+Qed.
+
+Definition imp_ds_body (d : N) : act :=
+  refuse_held shipped d ;;
+  ev ret ;; ev (upd (fun s => set_fs (fset d (src_content d) (fs s)) s)) ;; reg_undo (URm d) ;; ev ret ;;
+  ev (guard (fun s => negb (mem d (loc (cur s))) && negb (mem d (recs (cur s)))) ;; stored_rows d).
 
 Lemma FA_import_body : forall d,
-  FA (Pi d) (ev (guard (fun s => negb (has_ds d s) || mem d (xf (cur s)))) ;;
-             upd (on_cur (fun x => up_xf (add d) (up_ds (add d) x))) ;;
-             with_ds shipped (ev ret ;; ev (upd (fun s => set_fs (fset d (src_content d) (fs s)) s)) ;; reg_undo (URm d) ;; ev ret ;;
-                              ev (guard (fun s => negb (mem d (loc (cur s))) && negb (mem d (recs (cur s)))) ;; stored_rows d))).
+  FA (Pa d) (ev (guard (fun s => negb (has_ds d s) || mem d (xf (cur s)))) ;;
+             upd (on_cur (fun x => up_xf (add d) (up_ds (add d) x))) ;; with_ds shipped (imp_ds_body d)).
 Proof.
   intros d s s' r H. unfold bind at 1 in H. unfold ev at 1 in H. destruct (tick s) as [s1 b1] eqn:T1. tk T1.
   assert (M1 : Mono s (set_fuse x s)) by (apply Mono_set_fuse; intro F; apply TN; exact F).
   assert (G0 : Mono s (set_fuse x s) /\
-               forall l rr, ptr (set_fuse x s) = l :: rr -> no_orphan s -> holds (Pi d) s -> cfault (set_fuse x s) = false ->
+               forall l rr, ptr (set_fuse x s) = l :: rr -> no_orphan s -> holds (Pa d) s -> cfault (set_fuse x s) = false ->
                no_orphan (set_fuse x s) /\ exists l', ptr (set_fuse x s) = (l' ++ l) :: rr /\ restores l' (set_fuse x s) s).
   { split; [exact M1|]. intros l rr Pt0 O _ _. split; [exact O|].
     exists []. split; [exact Pt0 | apply restores_nil; apply feq_refl]. }
@@ -163,29 +170,34 @@ Proof.
   destruct (negb (mem d (ds (cur s))) || mem d (xf (cur s))) eqn:GG; simpl in H.
   2:{ inversion H; subst; exact G0. }
   unfold bind at 1, upd at 1 in H.
-  assert (Hm : FA (Pd d) (with_ds shipped (ev ret ;; ev (upd (wr d (src_content d))) ;; reg_undo (URm d) ;; ev ret ;;
-                                           ev (guard (fun s => negb (mem d (loc (cur s))) && negb (mem d (recs (cur s)))) ;; stored_rows d)))).
-  { apply FAc_FA, FAc_with_ds, FA_copy_unit. apply NA_bind; [apply NA_ev, NA_ret|].
+  assert (Hm : FA (Pad d) (with_ds shipped (imp_ds_body d))).
+  { apply FAc_FA, FAc_with_ds. unfold imp_ds_body. apply FA_refuse_then.
+    apply (FA_copy_unit d (src_content d)). apply NA_bind; [apply NA_ev, NA_ret|].
     apply NA_ev, NA_bind; [apply NA_guard | apply NA_upd; neutral]. }
   destruct (Hm _ _ _ H) as (M & K).
   split; [eapply Mono_trans; [exact M1 | exact M]|].
   intros l rr Pt0 O Pz CF.
   assert (O2 : no_orphan (on_cur (fun x0 => up_xf (add d) (up_ds (add d) x0)) (set_fuse x s))).
   { intros y Y. unfold on_cur; simpl. apply mem_add_mono. apply O. exact Y. }
-  assert (Pz2 : holds (Pd d) (on_cur (fun x0 => up_xf (add d) (up_ds (add d) x0)) (set_fuse x s))).
-  { unfold holds, Pd, on_cur; simpl. split; [exact Pz | apply mem_add_same]. }
+  assert (Pz2 : holds (Pad d) (on_cur (fun x0 => up_xf (add d) (up_ds (add d) x0)) (set_fuse x s))).
+  { unfold holds, Pad, Pa, on_cur; simpl. split; [exact Pz | apply mem_add_same]. }
   exact (K l rr Pt0 O2 Pz2 CF).
 Qed.
 
-Lemma FAc_import_op : forall d, FAc (Pi d) (exec_op shipped (ImportDs d)).
+Lemma FAc_import_op : forall d, FAc (Pa d) (exec_op shipped (ImportDs d)).
 Proof.
-  intro d; simpl. unfold do_import. apply FAc_butler_txn; [apply FA_after_load_dc, FA_import_body|].
-  repeat first [ apply WB_bind | apply WB_ev | apply WB_ret | apply WB_guard | apply WB_with_ds | apply WB_reg_undo
+  intro d; simpl. change (do_import shipped d) with
+    (butler_txn shipped (load_dc ;; ev (guard (fun s => negb (has_ds d s) || mem d (xf (cur s)))) ;;
+                         upd (on_cur (fun x => up_xf (add d) (up_ds (add d) x))) ;; with_ds shipped (imp_ds_body d))).
+  apply FAc_butler_txn; [apply FA_after_silent; [apply Silent_load_dc | apply FA_import_body]|].
+  unfold imp_ds_body.
+  repeat first [ apply WB_refuse_held | apply WB_bind | apply WB_ev | apply WB_ret | apply WB_guard | apply WB_with_ds | apply WB_reg_undo
                | apply WB_load_dc | apply WB_stored_rows | (apply WB_upd; keeps) ].
 Qed.
 
+(* FULL strength since 2da36a1 (the guard "the slot has no artifact yet" is gone; what is left is the invariant Pa) *)
 Lemma import_files_atomic_p : forall d s s' h,
-  no_orphan s -> fget d (fs s) = None ->
+  no_orphan s -> (fget d (fs s) <> None -> mem d (recs (cur s)) = true) ->
   exec shipped (POp (ImportDs d)) s = (s', Raised h) -> cfault s' = false ->
   feq (fs s') (fs s) /\ feq (ext s') (ext s) /\ ptr s' = ptr s /\ no_orphan s'.
 Proof.
@@ -193,19 +205,37 @@ Proof.
   destruct (K O P CF) as (O' & Q1 & Q2 & Q3). auto.
 Qed.
 
+Lemma import_files_atomic_old_p : forall d s s' h,
+  no_orphan s -> fget d (fs s) = None ->
+  exec shipped (POp (ImportDs d)) s = (s', Raised h) -> cfault s' = false ->
+  feq (fs s') (fs s) /\ feq (ext s') (ext s) /\ ptr s' = ptr s /\ no_orphan s'.
+Proof. intros d s s' h O P. apply import_files_atomic_p; [exact O|]. intro X. congruence. Qed.
+
 (* s_imp: the dataset of slot 0 imported (committed, no fault) *)
 Definition s_imp : st := fst (exec shipped (POp (ImportDs 0)) (init e0)).
 
-Lemma reimport_deletes_artifact_p :
+(* 2da36a1 on the shipped model: the re-import is refused and NOTHING changes -- literally, files and staging area included *)
+Lemma reimport_refused_p :
   let '(s', r) := exec shipped (POp (ImportDs 0)) s_imp in
+  fuse s_imp = None /\ r = Raised false /\ cfault s' = false /\ cur s' = cur s_imp /\ fs s' = fs s_imp /\ ext s' = ext s_imp /\
+  fget 0 (fs s') = Some 200.
+Proof. vm_compute. repeat split. Qed.
+
+Lemma reimport_caught_refused_p :
+  let '(s', r) := exec shipped (PBlock [PTry (POp (ImportDs 0)); POp (Assoc 0)]) s_imp in
+  r = Normal /\ mem 0 (loc (cur s')) = true /\ tags (cur s') = [0] /\ fs s' = fs s_imp /\ fget 0 (fs s') = Some 200.
+Proof. vm_compute. repeat split. Qed.
+
+(* ... and on the model variant WITHOUT the pre-check (reverting 2da36a1): the re-import fails at INSERT dataset_location after
+   the artifact was overwritten and the undo registered; the rollback deletes the artifact of the committed dataset *)
+Lemma reimport_deletes_artifact_nofix_p :
+  let '(s', r) := exec nofix_ri (POp (ImportDs 0)) s_imp in
   fuse s_imp = None /\ r = Raised false /\ cfault s' = false /\ cur s' = cur s_imp /\
   mem 0 (loc (cur s_imp)) = true /\ fget 0 (fs s_imp) = Some 200 /\ fget 0 (fs s') = None.
 Proof. vm_compute. repeat split. Qed.
 
-(* the same seen by a program that catches the failure: the block commits, the dataset stays registered and located,
-   its artifact is gone *)
-Lemma reimport_caught_p :
-  let '(s', r) := exec shipped (PBlock [PTry (POp (ImportDs 0)); POp (Assoc 0)]) s_imp in
+Lemma reimport_caught_nofix_p :
+  let '(s', r) := exec nofix_ri (PBlock [PTry (POp (ImportDs 0)); POp (Assoc 0)]) s_imp in
   r = Normal /\ mem 0 (ds (cur s')) = true /\ mem 0 (loc (cur s')) = true /\ tags (cur s') = [0] /\ fget 0 (fs s') = None.
 Proof. vm_compute. repeat split. Qed.
 
